@@ -852,6 +852,35 @@ def expected_skip(b):
 
 
 # ---------------------------------------------------------------------------------------- C07 rules
+def fits_int(c, ptype):
+    """does the integer c have an exact representation in the integral target type of a reader method ('int &')"""
+    from bsv.dtab import INT_TYPES as _IT
+    info = _IT.get(base_type(ptype or ''))
+    if info is None or not isinstance(c, int):
+        return False
+    bits, sg = info
+    if bits == 1:
+        return c in (0, 1)
+    return (-(1 << (bits - 1)) <= c < (1 << (bits - 1))) if sg else (0 <= c < (1 << bits))
+
+
+def canon_int(path, ptype):
+    """A constant that is exactly representable in the target may be delivered through ConvertByPolicy (which then stores it and returns
+    true - C04 decides the mapper) or stored directly: both are 'value = c, loaded'. Returns c for such a path, else None."""
+    conv = [a for a in path.actions if a[0] == 'CONVERT']
+    out = path.outcome
+    if out[0] != 'RET':
+        return None
+    if len(conv) == 1 and isinstance(conv[0][2], int) and fits_int(conv[0][2], ptype) and conv[0][3].split('.')[0] == 'value' \
+            and not any(a[0] in ('STORE', 'STOREBITS') for a in path.actions):
+        return conv[0][2]
+    if not conv and out[1] == 1:
+        st = [a for a in path.actions if a[0] == 'STORE' and a[1] == 'value']
+        if len(st) == 1 and isinstance(st[0][2], int) and fits_int(st[0][2], ptype):
+            return st[0][2]
+    return None
+
+
 def store_values(path):
     out = {}
     for a in path.actions:
@@ -871,12 +900,12 @@ def expected_accept(fam, ptype, b, kind):
         return dict(end=1, reads=(), ret=(1,))
     if fam == 'int':
         if bfam in ('uint', 'int') and fixed == 0:
-            return dict(end=1, reads=(), conv_src=SPEC.fixint_value(b), ret=('T',))
+            return dict(end=1, reads=(), conv_src=SPEC.fixint_value(b), ret=('T',), ptype=ptype)
         if b in SPEC.INT_PAYLOAD:
             n, sg = SPEC.INT_PAYLOAD[b]
             return dict(end=1 + n, reads=((n, sg),), conv_src='RD%s%d' % (sg, n), ret=('T',))
         if b in (0xc2, 0xc3):
-            return dict(end=1, reads=(), conv_src=b - 0xc2, ret=('T',))
+            return dict(end=1, reads=(), conv_src=b - 0xc2, ret=('T',), ptype=ptype)
     if fam == 'float':
         n = 4 if b == 0xca else 8
         return dict(end=1 + n, reads=((n, 'u'),), out='value', ret=(1, 'T'))
@@ -918,7 +947,12 @@ def expected_accept(fam, ptype, b, kind):
 def match_accept(exp, path, kind):
     sem = semantic(path)
     outcome, end, reads, conv, outs, skips, loops, tb = sem
-    if outcome[0] != 'RET' or outcome[1] not in exp['ret'] or skips:
+    direct = None
+    if isinstance(exp.get('conv_src'), int) and exp.get('ptype'):
+        direct = canon_int(path, exp['ptype'])
+        if direct is not None and direct != exp['conv_src']:
+            return False
+    if outcome[0] != 'RET' or (outcome[1] not in exp['ret'] and direct is None) or skips:
         return False
     if exp.get('end') is not None and end != exp['end']:
         return False
@@ -938,7 +972,7 @@ def match_accept(exp, path, kind):
                     return False
             elif st[i][1] != src:
                 return False
-    if 'conv_src' in exp:
+    if 'conv_src' in exp and direct is None:
         if len(conv) != 1 or conv[0][1] != exp['conv_src']:
             return False
     if 'out' in exp and not any(o.split('.')[0] == exp['out'] for o in outs):
@@ -1131,8 +1165,8 @@ def check_reader_twins(prog, rep, rule='R10.1'):
         rep.touch(ft)
         diff = []
         for b in range(256):
-            a = set(twin_core(p, 'string') for p in ps[b] if sufficient(p))
-            c = set(twin_core(p, 'stream') for p in pt[b] if sufficient(p))
+            a = set(twin_core(p, 'string', mkey[1]) for p in ps[b] if sufficient(p))
+            c = set(twin_core(p, 'stream', mkey[1]) for p in pt[b] if sufficient(p))
             if a == c:
                 rep.ok(rule, '%s|%02x' % (short_method(*mkey), b), nontrivial=len(a) > 1,
                        sample={'method': short_method(*mkey), 'first_byte': '0x%02x' % b, 'paths': len(a)} if b == 0xcc else None)
@@ -1148,8 +1182,11 @@ def check_reader_twins(prog, rep, rule='R10.1'):
                             {'only_string': list(x)[:4], 'only_stream': list(y)[:4], 'bytes': fmt_bytes(bs)}, func=ft.id, count=len(bs))
 
 
-def twin_core(path, kind):
+def twin_core(path, kind, ptype=None):
     outcome, end, reads, conv, outs, skips, loops, tb = semantic(path)
+    c = canon_int(path, ptype) if ptype else None
+    if c is not None:
+        outcome, conv, outs = ('RET', 1), (('const', c),), ('value',)
     # payload reads only (READ actions); classification reads of an ext length field (READLEN) are not consumption
     preads = tuple((a[1], a[2]) for a in path.actions if a[0] == 'READ')
     return (outcome, preads, conv, outs, skips, loops)
